@@ -259,7 +259,8 @@ theorem reaches_terminal_drop_witness :
 /-- Witness 2 (`close()` racing the end of the DTLS handshake): block A sets `Closed`, the driving loop
 then sees DTLS `Connected` and overwrites it with `Connected`, the cleared listeners end its loop before ICE
 is stopped, and the connection is left `Connected` (reason `LocalClose`, signaling `Closed`) for good.
-(Found by the proof attempt; a narrow scheduling window, not reproduced on the implementation.) -/
+(Found by the proof attempt; a narrow scheduling window — later observed on the implementation in a loaded
+run: known finding `term:*/connecting/close:connected-localClose`.) -/
 theorem reaches_terminal_close_race_witness :
     let t := run (phaseState .webrtc false 0 .dtlsHandshaking)
       [.callClose .localClose, .dtlsConnect, .drvStart, .closeStep, .drvLoops, .closeStep, .dtlsExit]
